@@ -96,6 +96,8 @@ def herm_basic(rng, count, types=("d",), classes=("sym", "symsh", "herm"), nmax=
             f = dict(fam="rand")
         nev, ncv = pick_dims(rng, n, extreme=rng.random() < 0.2)
         sel = rng.choice(HERM_SEL)
+        if cls == "symsh":
+            sel = rng.choice([0, 3, 7, 8])   # see gen_basic: no SmallestMagn (far from the shift) in shift-and-invert mode
         sort = rng.choice(HERM_SORT)
         mx = rng.choice(maxits or [80, 80, 80, 0, 1, 2, 3, 5, 10])
         tol = tol_for(rng, ty)
@@ -144,6 +146,11 @@ def gen_basic(rng, count, types=("d",), classes=("gen", "genrs", "gencs"), nmax=
             n = min(n, 10)
         nev, ncv = pick_dims(rng, n, gen=True, extreme=rng.random() < 0.2)
         sel = rng.choice(GEN_RULES)
+        if cls in ("genrs", "gencs"):
+            # Smallest* of nu = eigenvalues FAR from the shift: the unwanted dominant directions converge to machine precision
+            # long before the wanted ones, the residual vector degenerates to rounding noise and the near-breakdown finding
+            # (known_findings.json) is hit; the suite itself lets those sections fail.  Fixed descriptors keep two such runs.
+            sel = rng.choice([0, 1, 2])
         sort = rng.choice(GEN_RULES)
         mx = rng.choice(maxits or [80, 80, 80, 0, 1, 2, 3, 5, 10])
         tol = tol_for(rng, ty)
